@@ -263,12 +263,18 @@ impl DifficultyValues {
         n_diff_objects: &mut usize,
         mods: &GameMods,
     ) -> TaikoDifficultyObjects {
+        let mut total_objects = 0;
+        let mut total_hits = 0;
+
         let mut hit_objects_iter = converted
             .hit_objects
             .iter()
             .zip(converted.hit_sounds.iter())
             .map(|(h, s)| TaikoObject::new(h, *s))
             .inspect(|h| {
+                total_objects += 1;
+                total_hits += u32::from(h.is_hit());
+
                 if *max_combo < take {
                     *n_diff_objects += 1;
                     *max_combo += u32::from(h.is_hit());
@@ -312,6 +318,12 @@ impl DifficultyValues {
 
             diff_objects.push(diff_object);
             last = curr;
+        }
+
+        // If all hits were passed, non-hit objects after the last hit were
+        // passed too so that it's the same as not limiting at all
+        if total_hits <= take {
+            *n_diff_objects = total_objects;
         }
 
         // The first hit object is currently straight up skipped and not
